@@ -223,16 +223,16 @@ def build_grader(cfg):
     from mitxgraders import FormulaGrader, NumericalGrader, MatrixGrader, SumGrader, ListGrader, DependentSampler
     kw = math_kwargs(cfg)
     kind = cfg['kind']
-    if kind == 'formula':
-        g = FormulaGrader(answers=item_answers(cfg), **kw)
-        return lambda boxes: g(None, boxes[0])
-    if kind == 'numerical':
-        g = NumericalGrader(answers=item_answers(cfg), **kw)
-        return lambda boxes: g(None, boxes[0])
-    if kind == 'matrix':
-        if cfg['entryPartial']:
+    if kind in ('formula', 'numerical', 'matrix'):
+        cls = {'formula': FormulaGrader, 'numerical': NumericalGrader, 'matrix': MatrixGrader}[kind]
+        if kind == 'matrix' and cfg['entryPartial']:
             kw['entry_partial_credit'] = 'proportional'
-        g = MatrixGrader(answers=item_answers(cfg), **kw)
+        if cfg.get('aux', {}).get('wrap') == 'singlelist':
+            # the same grader as the subgrader of a one-item SingleListGrader (';' never occurs in a formula)
+            from mitxgraders import SingleListGrader
+            g = SingleListGrader(answers=[item_answers(cfg)], subgrader=cls(**kw), delimiter=';')
+        else:
+            g = cls(answers=item_answers(cfg), **kw)
         return lambda boxes: g(None, boxes[0])
     if kind == 'sum':
         a = cfg['answers'][0]['boxes']
@@ -332,6 +332,8 @@ def describe(cfg):
         kw['dependent_samplers'] = {h['s']: box_text(h['box']) for h in cfg['deps']}
     if cfg.get('aux', {}).get('sub') == 'matrix':
         kw['second_subgrader'] = 'MatrixGrader'
+    if cfg.get('aux', {}).get('wrap'):
+        kw['inside'] = 'SingleListGrader'
     kw['user_functions'] = sorted(kw.get('user_functions', {}))
     kw['answers'] = [[box_text(b) for b in a['boxes']] + [a['g']] for a in cfg['answers']]
     if cfg['entryPartial']:
@@ -447,7 +449,7 @@ class Gen(object):
             if q < 0.5 and self.scope_names:
                 return ('var', r.choice(self.scope_names))                  # legitimate: must not be refused
             if q < 0.7:
-                return ('var', r.choice(['pi', 'c', 'a_{1}', 'a_{12}', 'a_{-3}', 'a_{0}', 'b_{2}']))
+                return ('var', r.choice(['pi', 'c', 'a_{1}', 'a_{12}', 'a_{-3}', 'a_{0}', 'b_{2}', 'I', 'vc', 'infty']))
             if q < 0.85:
                 return ('var', r.choice(list(self.author_only) + ['sibling_1']))
             return ('var', r.choice(T_BAD_VARS))
@@ -575,13 +577,32 @@ class Gen(object):
         if kind == 'sum':
             consts.append('infty')
             val['infty'] = NP
-        instr = [v for v in ['z', 't', 'c', 'pi'] if (v in variables or v in consts) and r.random() < 0.35]
+        # class-specific names a grader puts into the scope by itself: MatrixGrader's identity I (identity_dim), array
+        # valued user constants, the infinity of allow_inf (summations always have it)
+        aux = {}
+        if kind == 'matrix':
+            if r.random() < 0.6:
+                aux['identity_dim'] = r.choice([2, 3])
+                consts.append('I')
+                val['I'] = NP
+            if r.random() < 0.4:
+                aux['arrays'] = {'vc': [1, 2]}
+                consts.append('vc')
+                val['vc'] = NP
+        if kind in ('formula', 'numerical') and r.random() < 0.25:
+            aux['allow_inf'] = True
+            consts.append('infty')
+            val['infty'] = NP
+        instr = [v for v in ['z', 't', 'c', 'pi', 'I', 'vc', 'infty']
+                 if (v in variables or v in consts) and r.random() < 0.35]
         numbered = []
         if has_vars:
-            for h in ['a', 'b']:
+            for h, inst in (('a', 'a_{1}'), ('b', 'b_{2}')):
                 if r.random() < 0.4:
                     numbered.append({'s': h, 'ch': [h]})
                     val[h] = V(values.pop())
+                    if r.random() < 0.3:
+                        instr.append(inst)                 # an instructor-only instance of a numbered variable
         self.user_funcs = [f for f in ['f', 'g', 'h'] if r.random() < 0.5]
         p = r.random()
         wmode, white, black = 'off', [], []
@@ -603,6 +624,10 @@ class Gen(object):
                'white': white, 'black': black, 'required': required, 'forbidden': forbidden,
                'metric': r.random() < 0.3, 'entryPartial': False, 'dummy': dummy, 'val': val, 'answers': [],
                'deps': []}
+        if kind in ('formula', 'numerical', 'matrix') and r.random() < 0.25:
+            aux['wrap'] = 'singlelist'
+        if aux:
+            cfg['aux'] = aux
         # ---- answers and the base of the submission
         partial_tree = None
         if kind == 'matrix':
